@@ -68,7 +68,7 @@ def _opts(mode="full"):
     global OPTS
     if mode == "collide":
         return [dict(ngram_range=ng, stop_words=None, lowercase=True, min_df=md, max_df=1.0, max_features=None, binary=b)
-                for ng in ((1, 2), (2, 2), (2, 3), (1, 3), (3, 3)) for md in (1, 2) for b in (False, True)]
+                for ng in ((1, 2), (2, 2), (2, 3), (1, 3), (3, 3), (0, 0), (0, 1), (0, 2), (0, 3)) for md in (1, 2) for b in (False, True)]
     if mode == "long":
         return [dict(ngram_range=ng, stop_words=sw, lowercase=True, min_df=1, max_df=1.0, max_features=None, binary=b)
                 for ng in ((1, 1), (1, 3), (2, 4), (3, 3), (1, 5)) for sw in (None, ["aab"]) for b in (False, True)]
